@@ -26,7 +26,8 @@ LEVEL = "exploration"
 RUNS = {"quick": 1200, "thorough": 25000}
 CHUNK = {"quick": 10, "thorough": 50}
 PROBES = ["rsa1024", "rsa2048", "info_len_0", "info_len_at_limit", "info_len_over_limit", "field_at_max", "field_at_zero",
-          "rogue_wrong_key", "rogue_random", "rogue_bitflip", "rogue_no_magic", "rogue_short_plaintext", "ref_to_lib", "metadata_object_reused",
+          "rogue_wrong_key", "rogue_random", "rogue_bitflip", "rogue_no_magic", "rogue_short_plaintext", "rogue_size_lie", "ref_to_lib", "metadata_object_reused",
+          "c2http_checkin", "c2http_rogue_blob_shown_again", "client_identity", "client_random_bytes_start_with_zero",
           "session_population"]
 RULE = ("seeded plans: 6-12 metadata items per plan with every field drawn from {0, 1, max, random} at its full integer "
         "width, info of length 0..limit (limit = k-11-59 for the key) with the limit, limit+1 and limit+40 biased, "
@@ -72,7 +73,7 @@ def generate(rng, tier, index):
     other = {"rsa1024_a": "rsa1024_b", "rsa1024_b": "rsa1024_a", "rsa2048_a": "rsa2048_b", "rsa2048_b": "rsa2048_a"}[rsa]
     rogue = []
     for _ in range(rng.randint(4, 10)):
-        k = rng.choice(["wrong_key", "random", "bitflip", "bitflip", "no_magic", "no_magic", "short", "wrong_length", "wrong_length"])
+        k = rng.choice(["wrong_key", "random", "bitflip", "bitflip", "no_magic", "no_magic", "short", "wrong_length", "wrong_length", "size_lie"])
         r = {"kind": k, "seed": rng.getrandbits(30)}
         if k == "wrong_length":
             # a valid blob with bytes in front of / behind it, repeated, or cut: its length is not the modulus length
@@ -94,8 +95,43 @@ def generate(rng, tier, index):
                 r["plain"] = "00000000" + r["plain"][8:]
         if k == "short":
             r["plain"] = hx(bytes(rng.getrandbits(8) for _ in range(rng.randint(0, 3))))
+        if k == "size_lie":
+            # a complete metadata structure whose size field announces more (or less) than is there; mostly without the magic
+            info = bytes(rng.getrandbits(8) for _ in range(rng.choice([0, 1, 8, 20, rng.randint(0, lim)])))
+            valid = rc.pack_metadata({"aes_rand": bytes(16), "ansi_cp": 1252, "oem_cp": 437, "bid": 2 * rng.getrandbits(30),
+                                      "pid": 4, "port": 0, "flag": 0, "ver_major": 6, "ver_minor": 1, "ver_build": 7601,
+                                      "ptr_x64": 0, "ptr_gmh": 0, "ptr_gpa": 0, "ip": 1, "info": info})
+            actual = struct.unpack(">I", valid[4:8])[0]
+            delta = rng.choice([1, 1, 2, 3, 7, 8, 16, 50, 57, 58, 59, 100, 185, 186, 187, 0x10000, -1, -actual, 0xFFFFFFFF - actual])
+            magic = rng.choice([0xBEEE, 0xBEEF0000, 0xFFFFBEEF, 0x0001BEEF, rng.getrandbits(32) | 0x10000, 0, 0xBEEF])
+            r["plain"] = hx(struct.pack(">II", magic, (actual + delta) & 0xFFFFFFFF) + valid[8:])
         rogue.append(r)
-    return {"world": "S-metadata", "rsa": rsa, "other": other, "items": items, "rogue": rogue}
+    # one traffic decoder that holds only the RSA key is shown check-ins carrying these blobs, rogue ones more than once
+    from dst.session.config import gen_config
+    c2cfg = gen_config(rng, rsa=rsa)
+    return {"world": "S-metadata", "rsa": rsa, "other": other, "items": items, "rogue": rogue, "c2cfg": c2cfg,
+            "c2order": [rng.getrandbits(16) for _ in range(rng.randint(4, 10))],
+            # beacon ids for the library's own client (dry run): half of them ids whose deterministic 16 random bytes begin with
+            # a zero byte (about one id in 256; found by search, see _zero_top_ids)
+            "client_ids": [rng.choice(_zero_top_ids()) if rng.random() < 0.5 else 2 * rng.getrandbits(30) for _ in range(3)]}
+
+
+_ZT = []
+
+
+def _zero_top_ids():
+    """Even beacon ids for which a generator seeded the way the client documents it (same id -> same keys: seeded with a value
+    derived from the id) draws 128 bits that start with a zero byte. Only a bias for the inputs - no expectation depends on it."""
+    if not _ZT:
+        import random as _r
+        g = _r.Random()
+        bid = 2
+        while len(_ZT) < 40 and bid < 400000:
+            g.seed(bid ^ 0xACCE55ED)
+            if g.getrandbits(128) >> 120 == 0:
+                _ZT.append(bid)
+            bid += 2
+    return _ZT
 
 
 def execute(plan: dict) -> Result:
@@ -246,6 +282,7 @@ def execute(plan: dict) -> Result:
                     res.violate(("C06", "ref_to_lib_raised", type(e).__name__), f"decrypt_metadata raised {e!r} on a reference-encoded blob")
         # ---------------- rogue blobs
         klen = priv.size_in_bytes()
+        rogue_blobs = []
         for ri, r in enumerate(plan["rogue"]):
             res.cases += 1
             k = r["kind"]
@@ -277,10 +314,11 @@ def execute(plan: dict) -> Result:
                 res.probes["rogue_bitflip"] += 1
             else:
                 blob = PKCS1_v1_5.new(pub).encrypt(unhx(r["plain"]))
-                res.probes["rogue_no_magic" if k == "no_magic" else "rogue_short_plaintext"] += 1
+                res.probes["rogue_no_magic" if k == "no_magic" else "rogue_size_lie" if k == "size_lie" else "rogue_short_plaintext"] += 1
             # what does the reference say about this blob?
             pt = rc.rsa_decrypt(blob, priv) if len(blob) == klen else None      # an RSA ciphertext has exactly the modulus length
             ref_ok = pt is not None and len(pt) >= 4 and pt[:4] == b"\x00\x00\xbe\xef"
+            rogue_blobs.append((k, blob, ref_ok))
             try:
                 m = decrypt_metadata(blob, priv)
                 res.log.log("rogue", ri, k, "accepted")
@@ -295,7 +333,91 @@ def execute(plan: dict) -> Result:
                     res.violate(("C06", "rogue_wrong_exception", k, type(e).__name__),
                                 f"decrypt_metadata raised {type(e).__name__} instead of ValueError on a {k} blob "
                                 f"(RSA plaintext: {'none' if pt is None else str(len(pt)) + ' bytes ' + pt[:8].hex()})")
+        if plan.get("c2cfg"):
+            _c2http_stage(res, plan, priv, blobs, rogue_blobs)
+            _client_stage(res, plan, priv)
     return res
+
+
+def _client_stage(res, plan, priv):
+    """The library's own beacon client, set up (dry run) for a few beacon ids: the session keys it works with are the two halves
+    of SHA-256 over the 16 random bytes its check-in metadata carries - as seen by the peer after RSA transport."""
+    from dissect.cobaltstrike.beacon import BeaconConfig
+    from dissect.cobaltstrike.c2 import BeaconKeys, decrypt_metadata, encrypt_metadata
+    from dissect.cobaltstrike.client import HttpBeaconClient
+    from dst.session.config import config_block
+    bc = BeaconConfig(config_block(plan["c2cfg"]))
+    for bid in plan.get("client_ids", []):
+        c = HttpBeaconClient()
+        c.run(bc, dry_run=True, beacon_id=bid, user="u", computer="c", process="p.exe", internal_ip="10.0.0.1", arch="x64", pid=7)
+        res.cases += 1
+        res.probes["client_identity"] += 1
+        pt = rc.rsa_decrypt(encrypt_metadata(c.metadata, priv.publickey()), priv)
+        carried = rc.parse_metadata(pt)["aes_rand"]
+        if carried[:1] == b"\x00":
+            res.probes["client_random_bytes_start_with_zero"] += 1
+        want = rc.derive_keys(carried)
+        got = (bytes(c.aes_key), bytes(c.hmac_key))
+        viaapi = BeaconKeys.from_beacon_metadata(decrypt_metadata(encrypt_metadata(c.metadata, priv.publickey()), priv))
+        dec = (c.c2http.aes_key, c.c2http.hmac_key)
+        res.log.log("client", bid, carried, got[0])
+        if got != want or (bytes(viaapi.aes_key), bytes(viaapi.hmac_key)) != want or (bytes(dec[0]), bytes(dec[1])) != want:
+            res.violate(("C06", "client_keys_not_derived_from_carried_random_bytes", "zero_lead" if carried[:1] == b"\x00" else "other"),
+                        f"beacon client for id {bid}: its check-in metadata carries the random bytes {carried.hex()} (keys "
+                        f"{want[0].hex()}/{want[1].hex()}), the client works with {got[0].hex()}/{got[1].hex()}, its decoder with "
+                        f"{bytes(dec[0]).hex()}/{bytes(dec[1]).hex()}")
+            return
+
+
+def _c2http_stage(res, plan, priv, blobs, rogue_blobs):
+    """ONE C2Http that holds only the RSA private key is shown check-in requests (metadata placed by the reference encoder under
+    the configuration's http-get program) in a seeded order, every blob possibly several times: a blob that does not decrypt or
+    lacks the magic is rejected with ValueError every time it is shown, a genuine one yields its metadata every time."""
+    from dissect.cobaltstrike.beacon import BeaconConfig
+    from dissect.cobaltstrike.c2 import C2Http, HttpRequest
+    from dissect.cobaltstrike.c_c2 import BeaconMetadata
+    from dst.session.config import config_block
+    cfg = plan["c2cfg"]
+    dec = C2Http(BeaconConfig(config_block(cfg)), rsa_private_key=priv)
+    pool = [("genuine", b, True) for b in blobs[:3]] + [x for x in rogue_blobs if not x[2]][:5]
+    if not pool:
+        return
+    steps = cfg["get"]
+    nm = sum(1 for s_ in steps if s_[0] == "mask")
+    seen = {}
+    for oi, o in enumerate(plan["c2order"]):
+        kind, blob, ok = pool[o % len(pool)]
+        if not blob and kind != "genuine":
+            continue            # (an empty metadata value is no check-in at all)
+        mks = [core.draw(plan.get("run_seed", "0" * 16), "c2mk", oi, j).to_bytes(8, "big")[-4:] for j in range(nm)]
+        method, uri, params, headers, body = rc.ref_encode_request(steps, {"metadata": blob}, cfg["verb_get"].encode(),
+                                                                   cfg["domains"][0][1].encode(), [], mks, False)
+        req = HttpRequest(method=method, uri=uri, params=dict(params), headers=dict(headers), body=body)
+        nth = seen[o % len(pool)] = seen.get(o % len(pool), 0) + 1
+        try:
+            out = list(dec.iter_recover_http(req))
+            outcome = "yielded"
+        except ValueError:
+            out, outcome = [], "ValueError"
+        except Exception as e:  # noqa: BLE001
+            out, outcome = [], type(e).__name__
+        res.cases += 1
+        res.log.log("c2http", oi, kind, nth, outcome, len(out))
+        res.probes["c2http_rogue_blob_shown_again" if (nth > 1 and not ok) else "c2http_checkin"] += 1
+        if not ok and outcome != "ValueError":
+            res.violate(("C06", "c2http_rogue_blob_not_rejected", kind, "first" if nth == 1 else "again", outcome),
+                        f"a traffic decoder (RSA key only) shown a check-in with a {kind} metadata blob for the {nth}. time "
+                        f"{'yielded ' + repr(out)[:120] if outcome == 'yielded' else 'raised ' + outcome} instead of raising ValueError "
+                        f"(order {plan['c2order']}, http-get program {steps})")
+            return
+        if ok:
+            md = [x for x in out if isinstance(x, BeaconMetadata)]
+            want = rc.parse_metadata(rc.rsa_decrypt(blob, priv))
+            if outcome != "yielded" or len(md) != 1 or int(md[0].bid) != want["bid"] or bytes(md[0].aes_rand) != want["aes_rand"]:
+                res.violate(("C06", "c2http_genuine_checkin_not_decoded", "first" if nth == 1 else "again", outcome),
+                            f"a traffic decoder (RSA key only) shown a genuine check-in for the {nth}. time: {outcome}, {out!r:.200} "
+                            f"(order {plan['c2order']}, http-get program {steps})")
+                return
 
 
 def candidates(plan: dict):
